@@ -29,6 +29,8 @@ structure Ref where
   name : String
   resolved : Option (Nat × Bool)    -- the variable found: (declaration token, hoisted?)
   counted : Bool                    -- an identifier in an expression position (a read the specification speaks about)
+  decl : Bool := false              -- not a read: the entry logged when `tok` *declares* `name`; `resolved` is then
+                                    -- what the name denoted just before (`Variable.shadowed` of the real tables)
 deriving DecidableEq, Repr, Inhabited
 
 structure St where
@@ -61,7 +63,7 @@ def St.read (σ : St) (t : Tok) (counted : Bool := true) : St :=
   else { σ with refs := σ.refs ++ [{ tok := t.idx, name := t.text, resolved := stackFind σ.stack t.text, counted }] }
 
 def rewrite (name : String) (v : Nat × Bool) (r : Ref) : Ref :=
-  if r.name = name ∧ r.resolved = none then { r with resolved := some v } else r
+  if r.name = name ∧ r.resolved = none ∧ r.decl = false then { r with resolved := some v } else r
 
 /-- `write_name` + `try_hoist` for a plain-name target (writes themselves are not part of the core log) -/
 def St.hoist (σ : St) (t : Tok) : St :=
@@ -71,7 +73,24 @@ def St.hoist (σ : St) (t : Tok) : St :=
     let σ' := σ.define { name := t.text, info := some (t.idx, true) }
     { σ' with refs := σ'.refs.map (rewrite t.text (t.idx, true)) }
 
-def St.local_ (σ : St) (t : Tok) : St := σ.define { name := t.text, info := some (t.idx, false) }
+/-- Which declarations the log keeps: the name filter of the `shadowing` lint (not matched by the
+    ignore pattern, not `...`).  A parameter of the machine — every theorem holds for every filter;
+    the filter that keeps everything gives the raw `Variable.shadowed` table. -/
+class NameFilter where
+  keep : String → Bool
+
+variable [NameFilter]
+
+/-- `define_name_full_with_variable`: `shadowed := find_variable(name)` is taken first, then the variable
+    enters the innermost scope -/
+def St.logDecl (σ : St) (t : Tok) (name : String) : St :=
+  let r : Ref := { tok := t.idx, name := name, resolved := stackFind σ.stack name, counted := NameFilter.keep name, decl := true }
+  { σ with refs := σ.refs ++ [r] }
+
+def St.declare (σ : St) (t : Tok) (name : String) : St :=
+  (σ.logDecl t name).define { name := name, info := some (t.idx, false) }
+
+def St.local_ (σ : St) (t : Tok) : St := σ.declare t t.text
 
 def defineAll (σ : St) : List Tok → St
   | [] => σ
@@ -80,6 +99,7 @@ def defineAll (σ : St) : List Tok → St
 def defineParams (σ : St) : List Param → St
   | [] => σ
   | .name t :: rest => defineParams (σ.local_ t) rest
+  -- `...` is defined like a variable but is of no interest as a declaration (the shadowing lint skips it)
   | .dots t :: rest => defineParams (σ.define { name := "...", info := some (t.idx, false) }) rest
 
 /-! ### eager reads: every identifier of an expression that is not inside a function body -/
@@ -253,7 +273,7 @@ def stmt (σ : St) : Stmt → St
       let longer := !more.isEmpty || name.method.isSome
       let σ := if longer then σ.read base else (σ.read base false).hoist base
       match name.method with
-      | some m => (body_ (σ.open.define { name := "self", info := some (m.idx, false) }) body).close
+      | some m => (body_ (σ.open.declare m "self") body).close
       | none => body_ σ body
   | .localFunc _ name body => (body_ (σ.local_ name).open body).close
   | .unsupported _ => σ
@@ -267,8 +287,33 @@ def localBinding (r : Ref) : Option Nat :=
   | some (d, false) => some d
   | _ => none
 
+/-- what the machine answers: the declaration an identifier read denotes / the declaration a newly
+    declared name denoted just before -/
+inductive Ans where
+  | read (tok : Nat) (binding : Option Nat)
+  | decl (tok : Nat) (shadows : Option Nat)
+deriving DecidableEq, Repr, Inhabited
+
+def Ref.ans (r : Ref) : Ans :=
+  if r.decl then .decl r.tok (localBinding r) else .read r.tok (localBinding r)
+
+/-- every counted entry of the log, reads and declarations, in the order the visitor records them -/
+def St.log (σ : St) : List Ans := (σ.refs.filter (·.counted)).map Ref.ans
+
+def Ans.readOf : Ans → Option (Nat × Option Nat)
+  | .read t d => some (t, d)
+  | .decl _ _ => none
+def Ans.declOf : Ans → Option (Nat × Option Nat)
+  | .decl t d => some (t, d)
+  | .read _ _ => none
+
 /-- token ↦ binding for every counted read, in the order the visitor records them -/
 def St.answers (σ : St) : List (Nat × Option Nat) :=
-  (σ.refs.filter (·.counted)).map fun r => (r.tok, localBinding r)
+  (σ.refs.filter fun r => r.counted && !r.decl).map fun r => (r.tok, localBinding r)
+
+/-- declaration token ↦ the local declaration its name denoted just before (`Variable.shadowed`, a
+    global the file assigns not counting), in the order the visitor defines them -/
+def St.shadows (σ : St) : List (Nat × Option Nat) :=
+  (σ.refs.filter fun r => r.counted && r.decl).map fun r => (r.tok, localBinding r)
 
 end Selene.Scope.Core
